@@ -274,7 +274,8 @@ class CoordinateComponent(Component):
                     all(isinstance(v, np.ndarray) and v.dtype.kind != 'b' for v in view)):
                 axis = self._data.ndim - 1 - self.axis
                 # Negative indices count from the end of each dimension
-                view = [np.where(v < 0, v + n, v) for v, n in zip(view, self._data.shape)]
+                view = [np.where(v < 0, v + n, v) if v.dtype.kind in 'iu' else v
+                        for v, n in zip(view, self._data.shape)]
                 return pixel2world_single_axis(self._data.coords, *view[::-1],
                                                world_axis=axis)
 
